@@ -324,6 +324,13 @@ def run_command(ctx, spec):
     for n in range(spec['n']):
         state, s, names, recent = rng.choice(sessions)
         line = gen_command(rng, names)
+        if n % 400 == 7:
+            # a matcher nested deeper than the interpreter's stack is just another command line that cannot be used
+            k = rng.choice([150, 300, 450, 600, 900, 1200, 3000])
+            inner = rng.choice(['x', '! x', 'x, y', '"s"', ''])
+            line = rng.choice(['filter', 'f', 'breakpoint', 'b', 'list', 'matcher', 'l']) + ' ' + rng.choice([
+                '[' * k + inner + ']' * k, '[' * k + inner, 'x(' + '[' * k + inner + ']' * k + ')', '[' * k + 'x' + ']' * k + ' ~ 3', '(' * k + ')' * k])
+            ctx.count('deeply_nested_matcher_commands')
         # the quantifier is over PRINTABLE command lines (coloured input is C17's subject): drop control characters
         line = ''.join(ch if (ch.isprintable() or ch == '\t') else ' ' for ch in line)
         ctx.ev()
